@@ -454,8 +454,11 @@ def _run(ctx, oracle_only=False, big=None):
 def correspondence(ctx):
     from props import c07_wire
 
+    from props import c07_clock
+
     r = _run(ctx)
     r.merge(c07_wire.run(ctx))
+    r.merge(c07_clock.run(ctx))
     return r
 
 
@@ -463,8 +466,11 @@ def search(ctx, prior):
     # oracle only: first at the tier's own size, then (nothing found) on the large stream with a third zone
     from props import c07_wire
 
+    from props import c07_clock
+
     r = _run(ctx, oracle_only=True)
     r.merge(c07_wire.run(ctx))
+    r.merge(c07_clock.run(ctx))
     known = set()
     try:
         from framework import load_known
@@ -517,6 +523,10 @@ def _judge(i):
 
 
 def replay(ctx, doc):
+    if doc["failure"]["input"].get("kind") == "wall-clock-sequence":
+        from props import c07_clock
+
+        return c07_clock.replay(doc["failure"]["input"])
     if doc["failure"]["input"].get("kind") == "wire-listing":
         from props import c07_wire
 
